@@ -102,6 +102,21 @@ func oracle(c Case) *ev.Verdict {
 		if len(s) > 0 && (!cerr.HasPos || int(cerr.Index) >= len(s)) {
 			return ev.V("rejection:position", "regex schema %q rejected with index %d hasPosition=%v (%q)", s, cerr.Index, cerr.HasPos, cerr.Rendered)
 		}
+		// a refused schema stays refused whatever it is asked afterwards
+		var patErr, lenErr, exErr2, astErr, againErr, addErr error
+		if esc := sut.Trap("RSchema (refused, asked again)", func() {
+			_, patErr = r.Pattern()
+			_, lenErr = r.Len()
+			_, exErr2 = r.Example()
+			_, astErr = r.GetAST()
+			againErr = r.Check()
+			addErr = jschema.New("@main", `"x" // {type: "@r"}`).AddType("@r", r)
+		}); esc != nil {
+			return ev.V("panic:refused:"+esc.Frame, "operations on the refused regex schema %q panicked: %s", s, esc.Value)
+		}
+		if patErr == nil || lenErr == nil || exErr2 == nil || astErr == nil || againErr == nil || addErr == nil {
+			return ev.V("rejection:accepted-later", "regex schema %q is refused by Check() (%s) but afterwards Pattern() err=%v, Len() err=%v, Example() err=%v, GetAST() err=%v, Check() again=%v, AddType err=%v", s, cerr, patErr, lenErr, exErr2, astErr, againErr, addErr)
+		}
 		return nil
 	}
 	if esc := sut.Trap("RSchema", func() {
